@@ -72,7 +72,7 @@ PROPS = {
     'C04': dict(fams=['versions', 'rebase_pairs', 'hash_placement', 'intra', 'eq_stable'], views=['obs'], oracles=['isolation', 'memo'],
                 pyref=False, filt=lambda k, o: False,
                 key=lambda ops: any(o.startswith(('clone', 'to_vector', 'to_list', 'rebase')) for o in ops)),
-    'C05': dict(fams=['capacity', 'codec', 'bulk', 'invalid_args'], views=['obs'], oracles=['capacity'], pyref=True,
+    'C05': dict(fams=['capacity', 'codec', 'bulk', 'invalid_args', 'crud'], views=['obs'], oracles=['capacity'], pyref=True,
                 filt=lambda k, o: k == 'R' and o in CTOR_OPS,
                 key=lambda ops: True),
     'C06': dict(fams=['crud', 'versions', 'rebase_pairs', 'intra', 'suffix', 'capacity', 'codec', 'bulk'],
@@ -92,7 +92,7 @@ PROPS = {
                       'repeat_slow', 'from_elem', 'empty', 'ssz_list', 'ssz_vec', 'hash', 'get', 'len', 'iter_from', 'level_iter',
                       'eq', 'ssz_enc', 'serde_ser', 'drop', 'bulk'},
                 filt=lambda k, o: False, key=lambda ops: any(o.startswith(('apply', 'pop_front', 'clone')) for o in ops)),
-    'C11': dict(fams=['suffix', 'crud'], views=['obs', 'shape'], vops=POP_OPS, oracles=['suffix', 'canonical'], oops=SUFFIX_OPS,
+    'C11': dict(fams=['suffix', 'crud', 'invalid_args'], views=['obs', 'shape'], vops=POP_OPS, oracles=['suffix', 'canonical'], oops=SUFFIX_OPS,
                 pyref=False, filt=lambda k, o: (k == 'R' and o in SUFFIX_OPS and o != 'level_iter') or (k == 'O' and o in POP_OPS),
                 key=lambda ops: any(o.split()[0] in SUFFIX_OPS for o in ops)),
     'C12': dict(fams=['codec', 'crud', 'versions', 'roundtrip'], views=['obs'], oracles=['ssz', 'roundtrip_ssz'], pyref=True,
